@@ -27,7 +27,7 @@ RULE = (
     "negative leading terms x the 8 display_graded/display_reverse/display_inverse settings x display_exponent in "
     "{**, ^} x display_multiply in {*, '', ' ' (0-d and repr only)}. Oracle: parse(str(p)) and parse(repr(p)) == model(p) "
     "(floats equal after casting to p.dtype); printed monomials strictly monotone in the selected order and reversed by "
-    "display_inverse; polynomial(to_sympy(p)) model-equal (1e-12) for 0-d int/float p under default signs. "
+    "display_inverse; polynomial(to_sympy(p)) model-equal (1e-12) for 0-d int/float p under every display setting. "
     "non-trivial = >= 3 printed terms of which two share a total degree, or a coefficient in {-1, +1, complex, negative float}."
 )
 ASSUMPTIONS = [
@@ -337,19 +337,19 @@ def check_case(case, ctx):
                     return [Failure("term-order:display_inverse-has-no-effect", "same direction with display_inverse=%s and %s"
                                     % (inverse, not inverse))]
     # sympy round trip: 0-d, int/float, default signs
-    if p.ndim == 0 and case["kind"] in ("i", "f") and pw == "**" and mul == "*":
+    if p.ndim == 0 and case["kind"] in ("i", "f"):
         small = all(abs(float(c)) < 1e15 and (c == 0 or abs(float(c)) > 1e-10)
                     for _, cs in case["terms"] for c in cs)
         if small:
             try:
-                with numpoly.global_options(**{k: v for k, v in opts.items() if k.startswith("display_g") or
-                                               k in ("display_reverse", "display_inverse")}):
+                with numpoly.global_options(**{k: v for k, v in opts.items() if k.startswith("display_")}):
                     back = numpoly.polynomial(numpoly.to_sympy(p))
                 bm = to_model(back)
             except MalformedPoly as err:
                 return [Failure("sympy:malformed", str(err))]
             except Exception as err:
-                return [Failure("sympy:exception:" + type(err).__name__, repr(err))]
+                return [Failure("sympy:exception:%s%s" % (type(err).__name__, "" if (pw, mul) == ("**", "*") else ":display-signs"),
+                                "to_sympy under %s: %r" % ({k: v for k, v in opts.items() if k.startswith("display_")}, err))]
             if bm.shape != pm.shape or not mp_close(bm[()], pm[()], 1e-12, max(1.0, pm[()].maxabs())):
                 return [Failure("sympy:value", "polynomial(to_sympy(p)) = %r, p = %r" % (bm[()], pm[()]))]
             ctx.label("sympy-roundtrip")
